@@ -298,6 +298,8 @@ impl<'a> JoinOutput<'a> {
             is_try,
         } = self.config;
 
+        #[cfg(feature = "verif_hooks")]
+        crate::verif_hook::point("gen::generate_step");
         let (def_streams, step_streams): (Vec<_>, Vec<_>) = self.chains
             .iter()
             .map(|chain| chain.get(step_number))
@@ -449,6 +451,8 @@ impl<'a> JoinOutput<'a> {
     ) -> TokenStream {
         let step_number = step_number.into();
         let next_step_stream = next_step_stream.into();
+        #[cfg(feature = "verif_hooks")]
+        crate::verif_hook::point("gen::join_steps");
         let &Self {
             transpose,
             max_step_count,
@@ -774,6 +778,8 @@ impl<'a> JoinOutput<'a> {
     /// Expands process expr with given prev result.
     ///
     fn expand_process_expr(&self, prev_result: TokenStream, expr: &ProcessExpr) -> TokenStream {
+        #[cfg(feature = "verif_hooks")]
+        crate::verif_hook::point("gen::expand_process_expr");
         match expr {
             ProcessExpr::Then(_) => {
                 quote! { (#expr(#prev_result)) }
@@ -807,6 +813,8 @@ impl<'a> JoinOutput<'a> {
         let branch_index = branch_index.into();
         let expr_index = expr_index.into();
 
+        #[cfg(feature = "verif_hooks")]
+        crate::verif_hook::point("gen::separate_block_expr");
         if inner_expr.is_replaceable() {
             inner_expr.inner_exprs().and_then(|exprs| {
                 let (def, replace_exprs): (Option<_>, Vec<_>) = exprs
@@ -1077,6 +1085,8 @@ impl<'a> ToTokens for JoinOutput<'a> {
             is_async, is_spawn, ..
         } = self.config;
 
+        #[cfg(feature = "verif_hooks")]
+        crate::verif_hook::point("gen::to_tokens");
         let results_var = construct_results_name();
         let handler_name = construct_handler_name();
         let (result_pats, result_vars): (Vec<_>, Vec<_>) = (0..self.branch_count)
